@@ -573,7 +573,10 @@ def run_c18(chk):
         state = seed % M
         seq = []
         for _ in range(r.below(10) + 2):
-            arg = r.weighted([("1", 50), ("0", 20), ("-1", 10), ("0.5", 5), ("1000000", 3), ("-0", 4), ("-.001", 4)])
+            arg = r.weighted([("1", 44), ("0", 18), ("-1", 9), ("0.5", 5), ("1000000", 3), ("-0", 4), ("-.001", 4),
+                              # the sign dispatch is exact: positive however small, negative however small
+                              (".0000000000000000001", 4), ("(.1+.2-.3)/2", 3), ("1/1000000/1000000/1000000", 3), (".00000000000000022", 2),
+                              ("-.0000000000000000001", 2), ("-1/1000000/1000000/1000000", 1)])
             seq.append(arg)
             row = s.line(f"PRINT RND({arg})")
             rep = session_replay(s)
@@ -581,7 +584,7 @@ def run_c18(chk):
                 chk.fail("crash:" + row.f.get("msg", "")[:50], f"seed {seed} RND({arg}): {row.raw[:120]}", rep)
                 break
             snap_rng = int(row.snap().get("rng", "-1"))
-            neg = arg in ("-1", "-.001")
+            neg = arg in ("-1", "-.001", "-.0000000000000000001", "-1/1000000/1000000/1000000")
             zero = arg in ("0", "-0")
             if neg:
                 if not row.outcome.startswith("err:Unimplemented"):
